@@ -95,8 +95,8 @@ PROPS["C20"] = dict(
                "coefficients; degree_of returns the index of the last non-zero coefficient; fill_power_series (behind get_power_series*) "
                "writes start * base^i. polynom::div (long division), against five field laws stated as assumptions (additive "
                "monoid laws, x - y + y == x, y * (x / y) == x): quotient * divisor + remainder == dividend coefficient by coefficient "
-               "with the remainder below the divisor degree, for every dividend and every non-zero divisor. Everything else - eval, "
-               "synthetic division, interpolation, expansion from roots, in-place accumulation, batch inversion - is written with iterator adapters / mem::swap / macros that the installed Verus "
+               "with the remainder below the divisor degree, for every dividend and every non-zero divisor. poly_from_roots / fill_zero_roots: the coefficients of the product of the (x - root) factors for every list of roots. Everything else - eval, "
+               "synthetic division, interpolation, in-place accumulation, batch inversion - is written with iterator adapters / mem::swap / macros that the installed Verus "
                "rejects and rests on the bounded stand-in (native execution against a naive reference written in the check).",
     level_note="The stand-in part is bounded as stated in coverage.native_bounded_standins and proves nothing. That E's operations are "
                "those of a field is C07's / C08's. polynom::mul is proved for non-empty operands (it underflows on two empty ones).",
